@@ -1,0 +1,22 @@
+package bigbuff
+
+// Points announced through verifPoint. They are no-ops unless the package is built with the
+// "verif" build tag AND a hook has been installed with VerifSetHook (see verif_on.go).
+const (
+	verifWaitCondBeforePark = iota + 1
+	verifWaitCondWatcherWoken
+	verifCleanupAfterPass
+	verifCleanupTimerFired
+	verifGetAsyncStart
+	verifExclRunnerStart
+	verifExclAfterWork
+	verifWorkerAfterWgWait
+	verifWorkersLoopTop
+	verifCasterArmed
+	verifCasterNegAdded
+	verifPubSubSendLocked
+	verifPubSubNegDecided
+	verifPubSubPongPhase
+	verifAttemptAfterTick
+	verifChainPrimaryFired
+)
